@@ -243,8 +243,12 @@ Record h23_request := mkH23Req {
   g_fields : list field;
   g_body : option (list bytes);     (* Some chunks: h2: the payloads of the writeData calls (DATA
                                        frames); h3: the body.Read results; None: no body *)
-  g_fin_last : bool }.              (* h2: the last writeData call carried END_STREAM (the body
+  g_fin_last : bool;                (* h2: the last writeData call carried END_STREAM (the body
                                        reader reported EOF together with the data) *)
+  g_aborted : bool }.               (* h2: after these frames awaitFlowControl (or the body read)
+                                       returned an error - the peer answered / reset the stream,
+                                       the request was cancelled - and writeRequestBody returned:
+                                       nothing more is written or dumped *)
 
 Definition h23_header_log (ds : list dumper) (fs : list field) : log :=
   run_hooks ds (field_hooks HReqHeader fs).
@@ -288,6 +292,7 @@ Definition h2_send {St} (ds : list dumper) (enc : list field -> bytes) (frame fr
         h2_write_data ds frame frame_fin (g_fin_last q) w (s1, l0) (filter nonempty chunks) in
       if e2 then (mkSend (fst st2) true false, snd st2) else
       if ended then (mkSend (fst st2) false false, snd st2) else
+      if g_aborted q then (mkSend (fst st2) true false, snd st2) else
       (* sentEnd = false: the separator for every body dumper, then the END_STREAM frame *)
       let l3 := snd st2 ++ hook_emit_all ds (HReqBodyEnd sep23) in
       let '(s3, _, e3) := w (fst st2) endstream in
@@ -315,6 +320,7 @@ Definition h2_send_plain {St} (enc : list field -> bytes) (frame frame_fin : byt
       let '(s2, e2, ended) := h2_write_data_plain frame frame_fin (g_fin_last q) w s1 (filter nonempty chunks) in
       if e2 then mkSend s2 true false else
       if ended then mkSend s2 false false else
+      if g_aborted q then mkSend s2 true false else
       let '(s3, _, e3) := w s2 endstream in
       mkSend s3 e3 false
   end.
